@@ -237,6 +237,7 @@ def datasets(draw, tier="quick"):
             "samples": samples,
             "sweeps": draw(st.sampled_from([0, 0, 1, 2])),
             "ann_order": draw(st.sampled_from(["sample", "instance", "reverse"])),
+            "sd_order": draw(st.sampled_from(["lidar_last", "lidar_first", "lidar_middle"])),
         },
         "task": draw(st.sampled_from(TASKS)),
         "frame": draw(st.sampled_from(FRAMES)),
@@ -407,6 +408,8 @@ def _classify(ctx, d):
         ctx.cls("negative_quaternion_sign")
     if ds["sweeps"]:
         ctx.cls("with_sweeps")
+    if len(ds["sensors"]) > 0:
+        ctx.cls("sample_data_" + ds.get("sd_order", "lidar_last"))
     if any(s["lidar_dt"] for s in S):
         ctx.cls("lidar_stamp_differs_from_sample")
     if d["task"] == "tracking" and any(len(v) >= 2 for v in present.values()):
